@@ -36,6 +36,12 @@ CHECKS = {
   design_ref="DESIGN.md §3 C05",
   note="Trusted: the re-implemented matcher of test/model.conf; operation class per method pinned to accounts.MethodMap (documentation names none).",
   technique="property-based testing: exhaustive method matrix + rapid policies vs. re-implemented access matcher"),
+ "C06": dict(
+  category="exploration",
+  text="Structurally valid, semantically arbitrary requests generated over the protobuf schema (every statement arm incl. null moves, mark/jump/set/increment, unset oneofs; non-string list members; every condition code with any JSON value; empty/duplicate/unnamed/untyped aggregations; negative and inverted ranges; undefined marks; steps after terminals) and arbitrary edit/job requests (elements with missing parts, unknown graphs, bulk streams that switch between existing and missing graphs, unknown job ids), served by a live GripServer in a worker subprocess through its gRPC handlers and through compile+run inside the worker; the oracle is the worker's survival (follow-up ListGraphs), with the panic message and first bmeg/grip frame as crash signature.",
+  design_ref="DESIGN.md §3 C06",
+  note="Requests exceeding their drain budget are counted inconclusive (hangs are C07's). A pipeline goroutine can outlive its request, so a crash case carries the three preceding requests of the same worker.",
+  technique="property-based testing / grammar fuzzing over the request schema against a crash-isolating worker process"),
  "C07": dict(
   category="exploration",
   text="Traversal shapes x graph families (star, bipartite fan, chain) x sizes drawn around every internal channel capacity (100/1000/5000 and their sums) on kvgraph/Badger and the hint-honouring in-memory backend; uncancelled runs must close with the closed-form row count, cancelled runs (context cancelled after j rows while the consumer keeps draining, as server.Traversal does) must close; afterwards no bmeg/grip goroutine and no temporary store may remain. Non-closure is a violation only when two goroutine dumps show every grip goroutine blocked without progress.",
@@ -72,6 +78,18 @@ CHECKS = {
   design_ref="DESIGN.md §3 C14",
   note="Trusted: the ~150-line MongoDB match interpreter (rules listed in harness/c14/findings/overview.md); no live MongoDB. Hook: mongo/export_verif.go.",
   technique="property-based testing: differential typing + translation check of emitted filters against a reference interpreter"),
+ "C15": dict(
+  category="exploration",
+  text="Generated table sets and mappings (shared labels, nested prefixes, ids with '-' and ':', links to missing rows, empty/number/null endpoints, repeated links, both directions) served by the repository's table server over in-process gRPC; every traversal (emphasis on the driver-planned hasLabel/id starts) on the TabularGraph is compared three-way with the reference interpreter on the abstract graph the mapping describes and with kvgraph loaded with that graph; write calls must be refused and change nothing.",
+  design_ref="DESIGN.md §3 C15",
+  note="Edge ids follow the from-label-to scheme E() lists (undocumented); ids shared by repeated links are not looked up. Only the table service shipped in the repository is used as a source.",
+  technique="property-based testing: three-way differential (gripper vs. reference model vs. embedded store) over rapid-generated tables, mappings and traversals"),
+ "C19": dict(
+  category="exploration",
+  text="Generated multisets of field values (missing, null, bool, numbers incl. negatives/fractions/duplicates, strings, numeric text, lists, maps; 0..60 rows and around the 1000-row aggregation buffer) x 1-4 aggregations per step (term with sizes, histogram intervals, percentile lists, field, type, count); each aggregation is judged against a direct computation over the rows the same traversal returns without aggregate(), plus independence of aggregations requested together.",
+  design_ref="DESIGN.md §3 C19",
+  note="Percentile values are only checked for monotonicity and range (t-digest is approximate). Plain numeric text in histogram/percentile, a null term bucket, and UNKNOWN for missing fields are accepted either way.",
+  technique="property-based testing: aggregation results vs. direct recomputation, metamorphic independence relation"),
  "C20": dict(
   category="exploration",
   text="Every psql / existing-sql entry point that takes an id, label, label list or graph name (table asserted complete by reflection over the method sets) x 39 hostile strings exhaustively plus random fragment concatenations; statements are captured by a recording database/sql driver, tokenised by a PostgreSQL lexer, and compared with the benign twin: token structure must be identical and the client string must appear only as one literal/identifier or as a bound argument.",
